@@ -1467,8 +1467,14 @@ func (ro *RedisOutput) bisyncStartPoint(ctx context.Context, runIDs []string) (S
 			}
 			// Recovery may consume the first post-snapshot journal records to rebuild
 			// the durable frontier. Once that frontier is selected, those journal
-			// keys are stale and should not survive as residual metadata.
-			ro.cleanupRecoveredBisyncCommitRecords(cli, checkpointName, frontier, records)
+			// keys are stale and should not survive as residual metadata. Persist the
+			// rebuilt frontier first: a restart before the next coordinator flush
+			// cannot reconstruct it from journals that are already gone.
+			if err := checkpoint.SaveBisyncFrontierSnapshot(cli, snapshotKey, frontier); err != nil {
+				ro.logger.Warnf("save recovered bisync frontier failed: checkpoint(%s), frontierSeq(%d), err(%v)", checkpointName, frontier.UnitSeq, err)
+			} else {
+				ro.cleanupRecoveredBisyncCommitRecords(cli, checkpointName, frontier, records)
+			}
 			ro.logger.Infof("bisync startpoint parallel selected: checkpoint(%s), start(%+v), seq(%d)", checkpointName, sp, frontier.UnitSeq)
 			return sp, frontier.UnitSeq, true, nil
 		}
